@@ -958,7 +958,7 @@ func c04Main(args []string) {
 			// the windows named in the property first: truncate/write of status rewrites, unit creation, stdin
 			prio := func(p crashPoint) int {
 				switch {
-				case strings.HasPrefix(p.Name, "ufs_after_trunc"), strings.HasPrefix(p.Name, "save_"), strings.HasPrefix(p.Name, "alloc_"):
+				case strings.HasPrefix(p.Name, "ufs_after_write"), strings.HasPrefix(p.Name, "ufs_after_trunc"), strings.HasPrefix(p.Name, "save_"), strings.HasPrefix(p.Name, "alloc_"):
 					return 0
 				case strings.HasPrefix(p.Name, "submit_"), strings.HasPrefix(p.Name, "start_"), strings.HasPrefix(p.Name, "runner_"):
 					return 1
@@ -995,7 +995,7 @@ func c04Main(args []string) {
 			points = sel
 		}
 		if *second {
-			for _, s := range []string{"scan_after_peek#1", "restart_after_load#1", "scan_after_restart#1", "ufs_after_trunc#1", "ufs_after_read#1"} {
+			for _, s := range []string{"scan_after_peek#1", "restart_after_load#1", "scan_after_restart#1", "ufs_after_write#1", "ufs_after_trunc#1", "ufs_after_read#1"} {
 				points = append(points,
 					crashPoint{Workload: "finish", Role: "daemon", Name: "daemon_on_runner_exit", K: 1, Second: s},
 					crashPoint{Workload: "long", Role: "daemon", Name: "submit_after_start", K: 1, Second: s},
